@@ -421,6 +421,10 @@ static void
 __nega_kv(struct dexkv_s *kv)
 {
 /* assume the parent dexpr has the nega flag set, negate KV */
+	if (kv->op == OP_UNK) {
+		/* no operator means equality */
+		kv->op = OP_EQ;
+	}
 	kv->op = ~kv->op;
 	return;
 }
